@@ -178,13 +178,43 @@ def run(ctx):
                 else:
                     ctx.bad('C12.5-recipes', inst, 'tuple arm does not compare sizes first: %s' % names[:5], ctx.where(B, r['bb']), key='SHAPE:%s:Tuple:size-first' % cmpname)
             elif var == 'List':
-                good = names and names[0] in ('iter', 'zip', 'into_iter', 'deref') and 'len' in names
-                li = names.index('len') if 'len' in names else -1
-                zi = min([names.index(x) for x in ('zip', 'next') if x in names] or [99])
-                if good and li > zi:
-                    ctx.ok('C12.5-recipes', inst, 'elements are compared first, lengths last (%s)' % names[:6])
+                # element-wise first, the length only as tie-break - wherever the two parts live (inline loop, helper function, then_with closure)
+                region = B.reachable(r['bb'])
+                bodies = [(B, region)]
+                for cdef in _closures_in(B, r['bb']):
+                    CB = P.B(cdef)
+                    if CB is not None:
+                        bodies.append((CB, set(CB.live_blocks())))
+                elem_at, len_at = [], []
+                for k_, (XB, reg) in enumerate(bodies):
+                    for bb_ in sorted(reg):
+                        t_ = XB.blocks[bb_]['t']
+                        if t_['k'] != 'call':
+                            continue
+                        nm_ = (callee_of(t_)[0] or '').rsplit('::', 1)[-1]
+                        full_ = callee_of(t_)[1] or callee_of(t_)[0] or ''
+                        aty_ = str(t_.get('aty'))
+                        if nm_ == 'cmp' and 'usize' in aty_ and any('len' in str(canon(XB, a_)) for a_ in t_['args'][:2]):
+                            len_at.append((k_, bb_))
+                        elif (nm_ == 'cmp' and 'Term' in aty_) or (nm_.startswith('compare_') and 'Term' in aty_) or nm_ in ('zip',):
+                            elem_at.append((k_, bb_))
+                        elif full_.startswith('erltf::') and nm_.startswith('compare_'):
+                            elem_at.append((k_, bb_))
+                if not elem_at:
+                    ctx.undecided('C12.5-recipes', inst, 'no element-wise comparison recognised in the list arm: %s' % names[:6])
+                elif not len_at:
+                    ctx.bad('C12.5-recipes', inst, 'the list arm compares the common elements but never the lengths: a list that is a proper prefix of another compares Equal to it (calls: %s)' % names[:6],
+                            ctx.where(B, r['bb']), key='SHAPE:%s:List:elements-first' % cmpname)
                 else:
-                    ctx.bad('C12.5-recipes', inst, 'list arm does not compare element-wise before length: %s' % names[:6], ctx.where(B, r['bb']), key='SHAPE:%s:List:elements-first' % cmpname)
+                    # a length comparison in the arm's own blocks that dominates every element comparison there = size first (tuple semantics)
+                    own_len = [bb_ for k_, bb_ in len_at if k_ == 0]
+                    own_el = [bb_ for k_, bb_ in elem_at if k_ == 0]
+                    size_first = bool(own_len) and ((own_el and all(B.block_dominates(l_, e_) and l_ != e_ for l_ in own_len[:1] for e_ in own_el)) or (not own_el))
+                    if size_first:
+                        ctx.bad('C12.5-recipes', inst, 'list arm compares the lengths before the elements: lists compare element-wise, the length only breaks ties (calls: %s)' % names[:6], ctx.where(B, r['bb']),
+                                key='SHAPE:%s:List:elements-first' % cmpname)
+                    else:
+                        ctx.ok('C12.5-recipes', inst, 'elements are compared first, lengths as tie-break (%s)' % names[:6])
             else:
                 t = B.blocks[r['bb']]['t']
                 pr = [x for x in receiver_root(B, t['args'][0])[1] if isinstance(x, str)] if t['k'] == 'call' and t['args'] else []
